@@ -595,3 +595,39 @@ spec("C18", jobs=c18_jobs,
      rule="every array up to the length bound / every permutation / every (size, pattern) pair; distinct_nontrivial = distinct "
           "medians observed; states = distinct inputs",
      assumptions=["finite samples; non-decreasing time stamps (documented precondition)"])
+
+
+# ----------------------------------------------------------------------------- C03
+def c03_jobs(tier):
+    def j(name, cfg, **o):
+        return dict(name=name, harness="c03_coroutine", cfg=cfg, opts=o, bound_min=0, bound_max=0, deadline=1500,
+                    crash_is_violation=True, recycle=5000)
+    if tier == "quick":
+        return [j("api-n2-d6-asan", "asan", mode="api", ncor=2, depth=6),
+                j("api-n2-d7-O2", "rel", mode="api", ncor=2, depth=7),
+                j("api-n3-d5-O3", "rel3", mode="api", ncor=3, depth=5),
+                j("seam-k2-d12-O2", "rel", mode="seam", ncor=2, depth=12),
+                j("seam-k3-d9-O3", "rel3", mode="seam", ncor=3, depth=9)]
+    return [j("api-n2-d8-asan", "asan", mode="api", ncor=2, depth=8),
+            j("api-n3-d7-O2", "rel", mode="api", ncor=3, depth=7),
+            j("api-n3-d7-O3", "rel3", mode="api", ncor=3, depth=7),
+            j("seam-k3-d11-O2", "rel", mode="seam", ncor=3, depth=11),
+            j("seam-k3-d11-O3", "rel3", mode="seam", ncor=3, depth=11)]
+
+
+spec("C03", jobs=c03_jobs,
+     technique="explicit-state exhaustive enumeration of start/yield/resume/transfer/stop/exit/return/restart interleavings on the real coroutines against a reference model, with an assembly probe that loads and re-reads all callee-saved registers, MXCSR and a stack canary around every switch",
+     level_text="Main plus two or three coroutines; the running coroutine chooses among all operations its state allows (yield / "
+                "transfer also 3 and 17 frames deep), every sequence up to the depth bound is executed on the real "
+                "cmi_coroutine_* functions in -O2, -O3 and ASan builds, and - seam level - on raw contexts switched by calling "
+                "cmi_coroutine_context_switch directly. An assembly probe loads rbx, rbp, r12-r15, MXCSR (all 1024 control words "
+                "in rotation) and a 256-byte stack canary immediately before the call and reads them back immediately after; a "
+                "40-line model predicts which coroutine gets control and which message it must see; entry arguments, entry stack "
+                "alignment (rsp mod 16 = 8, read in the first instruction), exit values and statuses are compared.",
+     level_note="Trusted: the probe (harness/c03_coroutine.S), the reference model, the explorer. Register VALUES are covered as "
+                "patterns (all-ones, zero, walking one/zero over all 64 positions, tags), not 2^64 values; arithmetic flags and the "
+                "x87 control word are outside the statement.",
+     budget=dict(quick=900, thorough=5400),
+     rule="every operation sequence up to the depth bound; distinct_nontrivial = distinct outcome signatures (who ran which operation "
+          "and what it received); states = distinct model states (current, statuses, callers, parents, remaining budget)",
+     assumptions=["operations are issued only when their documented preconditions hold (target running and suspended, parent alive for exit/return)"])
